@@ -71,7 +71,12 @@ func loopAliases(fn *ssa.Function) []*ssa.Store {
 
 // ruleLoopAlias implements C09-R4 / C10-R3 over the given functions.
 func (c *Ctx) ruleLoopAlias(id string, fns []*ssa.Function, min int) {
-	ru := c.R.Rule(id, "no loop-carried alias: a pointer appended to a broadcast / snapshot event inside a loop points to a variable that is distinct per iteration (the module's go directive decides whether a range variable is shared)", "E7 loop-alias on SSA (version-aware: go/ssa allocates per-iteration variables inside the loop for go >= 1.22)", min)
+	c.ruleLoopAliasOf(id, "a pointer appended to a broadcast / snapshot event inside a loop", fns, min)
+}
+
+// ruleLoopAliasOf is ruleLoopAlias with the kind of pointer named in the rule's text.
+func (c *Ctx) ruleLoopAliasOf(id, what string, fns []*ssa.Function, min int) {
+	ru := c.R.Rule(id, "no loop-carried alias: "+what+" points to a variable that is distinct per iteration (the module's go directive decides whether a range variable is shared)", "E7 loop-alias on SSA (version-aware: go/ssa allocates per-iteration variables inside the loop for go >= 1.22)", min)
 	for _, f := range fns {
 		if len(core.Loops(f)) == 0 {
 			continue
